@@ -97,10 +97,15 @@ func (r *Run) vfCall(fr *frame, fn *ssa.Function, args []value) value {
 		case Unsat:
 			r.decidedCache[c] = 1
 			if r.eng.crossCheck && r.eng.crossCheckDue() {
-				if cv := r.solver.CrossCheck(r.ts, neg); cv != Unsat {
-					r.inconclusive("cross-check disagreement on assertion %q: primary unsat, second solver %v", msg, cv)
+				switch cv := r.solver.CrossCheck(r.ts, neg); cv {
+				case Unsat:
+					r.crossChecked++
+				case Sat:
+					r.inconclusive("cross-check disagreement on assertion %q: primary unsat, second solver sat", msg)
+				default:
+					// the second solver gave up (timeout): not a disagreement, the
+					// query simply is not counted as cross-checked
 				}
-				r.crossChecked++
 			}
 			return nil
 		case Sat:
